@@ -184,11 +184,6 @@ func (d *Decoder) readTypedMap() (interface{}, error) {
 			return nil, err
 		}
 
-		//nil map
-		if key == nil {
-			break
-		}
-
 		value, err := d.ReadData()
 		if err != nil {
 			return nil, err
@@ -225,11 +220,6 @@ func (d *Decoder) readUntypedMap() (interface{}, error) {
 				break
 			}
 			return nil, err
-		}
-
-		// nil map
-		if key == nil {
-			break
 		}
 
 		value, err := EnsureInterface(d.ReadData())
@@ -287,10 +277,6 @@ func (d *Decoder) readMap(dest reflect.Value) error {
 			} else {
 				return newCodecError("readMap", err)
 			}
-		}
-
-		if key == nil {
-			break
 		}
 
 		vl, err := d.ReadData()
